@@ -356,7 +356,8 @@ struct OpStats
     bool in_probe;
     ll setshift;   // number of set_shift calls
     ll thrown;     // faults thrown so far
-    OpStats() : count(0), total(0), bad(0), fault_at(0), fault_tag(0), probe(0), in_probe(false), setshift(0), thrown(0) {}
+    ll thrown_since_arm;
+    OpStats() : count(0), total(0), bad(0), fault_at(0), fault_tag(0), probe(0), in_probe(false), setshift(0), thrown(0), thrown_since_arm(0) {}
 };
 
 struct Fault : public std::exception
@@ -416,6 +417,8 @@ struct CountOp
         if (st->fault_at && st->total == st->fault_at)
         {
             st->thrown++;
+            st->thrown_since_arm++;
+            st->fault_at = 0;
             throw Fault(st->fault_tag);
         }
         in.perform_op(x, y);
